@@ -2,6 +2,7 @@ package props
 
 import (
 	"fmt"
+	"go/token"
 	"go/types"
 	"sort"
 	"strings"
@@ -67,21 +68,21 @@ var documentedMutators = map[string]bool{
 
 // cacheDef describes a lazily filled cache.
 type cacheDef struct {
-	name  string                        // display
+	name  string                         // display
 	isInv func(ins ssa.Instruction) bool // the instruction invalidates (or refills) the cache
-	fill  []*ssa.Function               // functions that fill it
+	fill  []*ssa.Function                // functions that fill it
 }
 
 // C13: reads never modify; views reflect every edit.
 func C13(p *load.Prog, r *oblig.Run) {
 	r.Explanation = "R13.a (E4 purity): every function of the read-only API - Document.{Warnings,String,GEDCOMString,Individuals,Families,Places,Sources,NodeByPointer,Nodes}, the similarity/matching/diff/equality/flatten entry points, " +
 		"and every exported zero-argument method of the root package reachable by reflection from *Document (the accessors a query can call) - is analysed by the effect/provenance interpreter with all its parameters protected: no store to a structural " +
-		"field may reach state reachable from them. R13.b (cache pairing, may-invalidate): for every lazily filled cache the membership fields its fill computation reads (SimpleNode.children, Document.nodes; computed over the call graph) are determined, and every " +
+		"field may reach state reachable from them. R13.b (cache pairing; may-invalidate over the call graph plus must-invalidate inside the writer: an invalidation site dominates the membership store or lies on every path from it to a return, except on the unchanged side of a changed-flag returned by the call that produced the stored value): for every lazily filled cache the membership fields its fill computation reads (SimpleNode.children, Document.nodes; computed over the call graph) are determined, and every " +
 		"API function that directly stores such a field on an object it did not allocate must be able to reach an invalidation of that cache (a store to its field/flag/variable or a mutating call on its sync.Map)."
 	r.NotDecided = "equality of each view with a fresh decode as values; that an invalidation happens on every path and under the right condition (may, not must); value/tag/pointer edits (SetValue-style) against caches; purity of html.Publisher.Publish (too large for the interpreter's budget; its node-state writes are covered by R19.e's region analysis instead)."
 	r.Assumptions = e4Assumptions()
 	r.Rule("R13.a", "read-only operations perform no structural write on the document or nodes they are given", 150)
-	r.Rule("R13.b", "every writer of a membership field can reach an invalidation of every cache derived from that field", 8)
+	r.Rule("R13.b", "every writer of a membership field invalidates every cache derived from that field: it can reach an invalidation, and one is executed whenever the store is", 8)
 	g := cg.New(p, false)
 	explicit, accessors := readOnlyRoots(p, g)
 	r.Extra["read_only_roots_explicit"] = len(explicit)
@@ -312,7 +313,68 @@ func c13Pairing(p *load.Prog, r *oblig.Run, g *cg.Graph) {
 			key := fmt.Sprintf("%s keeps %s coherent", load.FuncName(w), c)
 			o := r.Add("R13.b", key, p.Pos(w.Pos()), fmt.Sprintf("%s stores %s, which the cache %s is computed from", load.FuncName(w), strings.Join(hit, ","), c))
 			if inval[c] {
-				o.OK("can reach an invalidation of the cache")
+				// must-invalidate at the top level: some invalidation (direct, or a call that can reach one) is executed
+				// whenever the membership store is - it dominates the store or lies on every path from it to a return
+				if why := invalidationOnEveryPath(w, c, func(fn *ssa.Function) bool {
+					if f := fx[fn]; f != nil && f.cacheStores[c] {
+						return true
+					}
+					for rf := range reach(fn) {
+						if f := fx[rf]; f != nil && f.cacheStores[c] {
+							return true
+						}
+					}
+					return false
+				}, func(ins ssa.Instruction) bool {
+					// direct invalidation instruction of cache c in w
+					switch x := ins.(type) {
+					case *ssa.Store:
+						if fa, ok := x.Addr.(*ssa.FieldAddr); ok {
+							if ow := su.FieldOwner(fa); ow != nil && cacheOf(ow, su.FieldName(fa)) == c && (isResetValue(x.Val) || guardedByFieldTest(x, fa)) {
+								return true
+							}
+						}
+						if gl, ok := x.Addr.(*ssa.Global); ok && gl == nodeCache && c == "var nodeCache" {
+							return true
+						}
+					case ssa.CallInstruction:
+						cc := x.Common()
+						if su.CalleeIs(cc, "sync", "Delete") || su.CalleeIs(cc, "sync", "Store") {
+							switch a := cc.Args[0].(type) {
+							case *ssa.FieldAddr:
+								if ow := su.FieldOwner(a); ow != nil && cacheOf(ow, su.FieldName(a)) == c {
+									return true
+								}
+							case *ssa.UnOp:
+								if gl, ok := a.X.(*ssa.Global); ok && gl == nodeCache && c == "var nodeCache" && su.CalleeIs(cc, "sync", "Delete") {
+									return true
+								}
+							}
+						}
+					}
+					return false
+				}, func(st *ssa.Store) bool {
+					fa, ok := st.Addr.(*ssa.FieldAddr)
+					if !ok {
+						return false
+					}
+					ow := su.FieldOwner(fa)
+					if ow == nil {
+						return false
+					}
+					ref := fieldRef{ow.Obj().Name(), su.FieldName(fa)}
+					if !membership[ref] || !deps[c][ref] {
+						return false
+					}
+					if _, isAlloc := fa.X.(*ssa.Alloc); isAlloc || freshCall(fa.X) {
+						return false
+					}
+					return true
+				}); why != "" {
+					o.Fail(fmt.Sprintf("%s changes %s but invalidates the cache %s only on some paths (%s): after an edit that takes the other path a view read before keeps returning the old nodes", load.FuncName(w), strings.Join(hit, ","), c, why))
+				} else {
+					o.OK("an invalidation of the cache is executed whenever the membership store is")
+				}
 			} else {
 				o.Fail(fmt.Sprintf("%s changes %s but cannot reach any invalidation of the cache %s: a view that was read before the edit keeps returning the old nodes", load.FuncName(w), strings.Join(hit, ","), c))
 			}
@@ -366,4 +428,98 @@ func guardedByFieldTest(st *ssa.Store, fa *ssa.FieldAddr) bool {
 		}
 	}
 	return false
+}
+
+// invalidationOnEveryPath: for every membership store of w some invalidation
+// site of the cache (a direct invalidation instruction, or a call whose callee
+// can reach one) is in a block that dominates the store's block, or lies on
+// every path from the store to a return. Returns "" when that holds.
+func invalidationOnEveryPath(w *ssa.Function, c string, calleeInvalidates func(*ssa.Function) bool, direct func(ssa.Instruction) bool, isMemberStore func(*ssa.Store) bool) string {
+	var sites []ssa.Instruction
+	var stores []*ssa.Store
+	for _, b := range w.Blocks {
+		for _, ins := range b.Instrs {
+			if direct(ins) {
+				sites = append(sites, ins)
+				continue
+			}
+			if ci, ok := ins.(ssa.CallInstruction); ok {
+				if _, isGo := ins.(*ssa.Go); isGo {
+					continue
+				}
+				if cal := ci.Common().StaticCallee(); cal != nil && cal != w && calleeInvalidates(cal) {
+					sites = append(sites, ins)
+				}
+			}
+			if st, ok := ins.(*ssa.Store); ok && isMemberStore(st) {
+				stores = append(stores, st)
+			}
+		}
+	}
+	if len(sites) == 0 {
+		return "" // the invalidation happens in a caller-independent way this rule does not see (dynamic call); the may-rule decided
+	}
+	for _, st := range stores {
+		ok := false
+		for _, site := range sites {
+			sb, tb := site.Block(), st.Block()
+			if _, isDefer := site.(*ssa.Defer); isDefer && sb.Dominates(tb) {
+				ok = true
+				break
+			}
+			if sb == tb || sb.Dominates(tb) {
+				ok = true
+				break
+			}
+			// post-dominance: no return reachable from the store's block without passing the site's block
+			var changedFlag ssa.Value
+			if ex, isEx := st.Val.(*ssa.Extract); isEx {
+				changedFlag = ex.Tuple
+			}
+			escapes := false
+			seen := map[*ssa.BasicBlock]bool{}
+			var walk func(b *ssa.BasicBlock)
+			walk = func(b *ssa.BasicBlock) {
+				if seen[b] || b == sb || escapes {
+					return
+				}
+				seen[b] = true
+				if len(b.Succs) == 0 {
+					if _, isRet := b.Instrs[len(b.Instrs)-1].(*ssa.Return); isRet {
+						escapes = true
+					}
+					return
+				}
+				// "did anything change?" reported by the very call that produced the stored value
+				// (nodes, didDelete = deleteNode(...)): only the changed side needs the invalidation
+				if iff, isIf := b.Instrs[len(b.Instrs)-1].(*ssa.If); isIf && changedFlag != nil {
+					cond := iff.Cond
+					neg := false
+					if u, isNot := cond.(*ssa.UnOp); isNot && u.Op == token.NOT {
+						cond, neg = u.X, true
+					}
+					if ex, isEx := cond.(*ssa.Extract); isEx && ex.Tuple == changedFlag {
+						if neg {
+							walk(b.Succs[1])
+						} else {
+							walk(b.Succs[0])
+						}
+						return
+					}
+				}
+				for _, s := range b.Succs {
+					walk(s)
+				}
+			}
+			walk(tb)
+			if !escapes {
+				ok = true
+				break
+			}
+		}
+		if !ok {
+			return "the store at line " + fmt.Sprint(w.Prog.Fset.Position(st.Pos()).Line) + " can be followed by a return without any invalidation"
+		}
+	}
+	return ""
 }
